@@ -1185,7 +1185,13 @@ func (sp *ServiceProvider) validateAssertion(assertion *Assertion, possibleReque
 	if assertion.Issuer.Value != sp.IDPMetadata.EntityID {
 		return fmt.Errorf("issuer is not %q", sp.IDPMetadata.EntityID)
 	}
+	if assertion.Subject == nil {
+		return fmt.Errorf("assertion has no Subject")
+	}
 	for _, subjectConfirmation := range assertion.Subject.SubjectConfirmations {
+		if subjectConfirmation.SubjectConfirmationData == nil {
+			return fmt.Errorf("assertion SubjectConfirmation has no SubjectConfirmationData")
+		}
 		requestIDvalid := false
 
 		// We *DO NOT* validate InResponseTo when AllowIDPInitiated is set. Here's why:
@@ -1222,6 +1228,9 @@ func (sp *ServiceProvider) validateAssertion(assertion *Assertion, possibleReque
 		if subjectConfirmation.SubjectConfirmationData.NotOnOrAfter.Add(MaxClockSkew).Before(now) {
 			return fmt.Errorf("assertion SubjectConfirmationData is expired")
 		}
+	}
+	if assertion.Conditions == nil {
+		return fmt.Errorf("assertion has no Conditions")
 	}
 	if assertion.Conditions.NotBefore.Add(-MaxClockSkew).After(now) {
 		return fmt.Errorf("assertion Conditions is not yet valid")
